@@ -541,13 +541,8 @@ theorem cli_is_api_diff (A : Api) (f0 f1 : Str) (m syn : Str) :
       let d ← A.diff old new (diffSyntaxPassed ⟨[f0, f1], m, syn⟩)
       if m = mDiff then pure d.1 else if m = mRollback then pure d.2 else .error .valueError) := rfl
 
-/-- **diff_ignores_syntax** — the defect F48 as a theorem about the code as written: the `-s`
-value has no influence on what `ccp diff` prints; the syntax handed to `Diff` is always `'ios'`.
-The property asks for the API result "for the same … syntax"; with the proposed patch
-(`notes/proposed-fixes/C18-1.patch`) `diffSyntaxPassed a` becomes `a.syn`. -/
-theorem diff_ignores_syntax (A : Api) (a : DiffArgs) (s : Str) :
-    diffCmd A { a with syn := s } = diffCmd A a ∧ diffSyntaxPassed a = "ios".toList :=
-  ⟨rfl, rfl⟩
+/-- **diff_honours_syntax** (after the repair of F48): the syntax handed to `Diff` is the `-s` value. -/
+theorem diff_honours_syntax (a : DiffArgs) : diffSyntaxPassed a = a.syn := rfl
 
 /-! ## non-vacuity -/
 
